@@ -20,7 +20,8 @@ A = lambda n: ('a', n)
 
 def leaves():
     base = [('is', 'truthy'), ('is', 'pos'), ('is', 'never'), ('iseq', '1'), ('iseq', "'a'"), ('iseq', '[1]'),
-            ('isinst', ('int',)), ('isinst', ('int', 'str')), ('issub', ('int',)), ('isinst', ('str',))]
+            ('isinst', ('int',)), ('isinst', ('int', 'str')), ('issub', ('int',)), ('isinst', ('str',)),
+            ('iseq', 'NEQ'), ('iseq', 'NAN')]          # operands that are not equal to themselves: identity must not count as equality
     inner = [('iseq', '1'), ('is', 'truthy'), ('isinst', ('str',)) if False else ('isinst', ('int', 'str'))]
     attr = [('isattr', 'x', v) for v in inner]
     attr += [('isattr', 'y', ('iseq', '1'))]
@@ -74,7 +75,7 @@ def objects():
             ('c', 'list', (V('1'),)), ('c', 'list', ()), ('cls', 'int'), ('cls', 'bool'), ('cls', 'str'), ('new', 'K'),
             o(), o(x=V('1')), o(x=V("'a'")), o(x=V('None')), o(x=V('0')), o(y=V('1')), o(x=V('1'), y=V('1')),
             o(x=o(y=V('1'))), o(x=o(y=V('0'))), o(x=o(x=V('1'))), o(x=o(x=V('1'), y=V('1'))), o(x=o(x=V('2'), y=V('1'))),
-            o(x=o(x=o(x=V('1')), y=V('1'))), o(x=('cls', 'int')), o(x=o())]
+            o(x=o(x=o(x=V('1')), y=V('1'))), o(x=('cls', 'int')), o(x=o()), V('NEQ'), V('NAN'), o(x=V('NEQ')), ('c', 'list', (V('NAN'),))]
 
 
 PLACEMENTS = ('root', 'list', 'tuple2', 'dictval', 'optional', 'seqseq')
@@ -257,7 +258,7 @@ def run(ctx):
         work.append(((a, b), 'object', PLACEMENTS))
     # every ordered pair of plain leaves as two validators of one Annotated (the second must see the object, not an
     # intermediate value of the first), a few triples
-    base_leaves = leaves()[:10]
+    base_leaves = leaves()[:12]
     for n_pair, (a, b) in enumerate(itertools.permutations(base_leaves, 2)):
         if ((a, b), 'object', PLACEMENTS) not in work:
             work.append(((a, b), 'object', PLACEMENTS if not ctx.quick or (n_pair + ctx.seed) % 2 == 0 else ('root', 'list', 'dictval')))
